@@ -97,8 +97,13 @@ def _cf_instruction(st: S.Stream, addr: int, pre: Optional[int], op: Optional[in
         op = st.choice(CF_WEIGHTED)
     n = OPERAND_LEN.get(op, 0)
     length = (1 if pre is not None else 0) + 1 + n
-    variants = C.operand_variants(st, op, addr, length, 2)
-    ocls, operand, xregs = st.choice(variants)
+    variants = C.operand_variants(st, op, addr, length, 2, n_fixed=-1, derived=True)
+    # landmark targets (own address +-k, vectors, region bases ...) one time in three; the classic list otherwise
+    lms = [v for v in variants if v[0].startswith("lm:")]
+    if lms and st.chance(1, 3):
+        ocls, operand, xregs = st.choice(lms)
+    else:
+        ocls, operand, xregs = st.choice([v for v in variants if not v[0].startswith("lm:")])
     code = (bytes([pre]) if pre is not None else b"") + bytes([op]) + operand
     return {"code": code.hex(), "pre": pre, "op": op, "kind": "cf", "mn": "",
             "xregs": {k: v for k, v in xregs.items() if k in ("X", "Y", "BA", "I")}}
